@@ -116,6 +116,9 @@ func opFacts(s *ast.Schema, doc *ast.QueryDocument, op *ast.OperationDefinition,
 					if a.Value != nil && a.Value.Kind != ast.Variable && hasVar(a.Value) {
 						tags["f:var-nested-in-literal"] = true
 					}
+					if depth >= 1 && usesVarNamed(a.Value, "id") {
+						tags["f:var-named-id-below-root"] = true
+					}
 				}
 				if x.Definition != nil && x.Definition.Type != nil {
 					t := x.Definition.Type
@@ -175,6 +178,21 @@ func opFacts(s *ast.Schema, doc *ast.QueryDocument, op *ast.OperationDefinition,
 	if len(doc.Operations) > 1 {
 		tags["f:multi-op"] = true
 	}
+}
+
+func usesVarNamed(v *ast.Value, name string) bool {
+	if v == nil {
+		return false
+	}
+	if v.Kind == ast.Variable && v.Raw == name {
+		return true
+	}
+	for _, c := range v.Children {
+		if usesVarNamed(c.Value, name) {
+			return true
+		}
+	}
+	return false
 }
 
 func hasVar(v *ast.Value) bool {
